@@ -278,7 +278,10 @@ def run(ck, tier):
 
     def pipeline(fn, cls, image_pred):
         rows = {}
-        for p in cx.enum(fn, cls, max_depth=0):
+        from ..paths import SelfResolver
+        # private helpers of the payload module (methods or module-level functions) are part of the word helper
+        res = SelfResolver(cx.idx, stop=lambda f_: f_.mod.name != 'pymodbus.payload' or not f_.name.startswith('_') or f_.name.startswith('__'))
+        for p in cx.enum(fn, cls, max_depth=2, resolver=res):
             annotate(p, heap=False)
             r = ret_expr(p)
             if r is None:
@@ -335,40 +338,91 @@ def run(ck, tier):
     tr, fr, bd = cx.method(b, 'to_registers'), cx.method(d, 'fromRegisters'), cx.method(b, 'build')
     for f_ in (tr, fr, bd):
         ck.saw('functions', f_.qn)
+    def word_format(fmt_node, fn, cls, per_item):
+        """the 16-bit code a pack/unpack format stands for: '!H' written out, or '!<n>H' with n counting the registers"""
+        v = cx.ce.try_ev(fmt_node, fn.mod, cls)
+        if isinstance(v, str):
+            return v
+        c = _canon(fmt_node)
+        if isinstance(c, ast.Call) and isinstance(c.func, ast.Name) and c.func.id == 'FMT' and c.args and isinstance(c.args[0], ast.Constant) \
+                and c.args[0].value in ('!{}H', '>{}H') and len(c.args) == 2 and isinstance(c.args[1], ast.Call) and callee_name(c.args[1]) == 'len' and not per_item:
+            return '!H'
+        return None
     fmts = set()
     for p in cx.enum(tr, b, max_depth=0):
         annotate(p)
-        repack = [ev.a for ev in p.ev if ev.kind == 'cond' and U(ev._sub) == 'self._repack']
+        repack = [ev.a for ev in p.ev if ev.kind == 'cond' and U(ev._sub).replace('not ', '') == 'self._repack']
+        neg = [U(ev._sub).startswith('not ') for ev in p.ev if ev.kind == 'cond' and U(ev._sub).replace('not ', '') == 'self._repack']
+        if not repack or (repack[0] != neg[0]):
+            continue        # only the paths with self._repack false
         r = ret_expr(p)
-        if r is not None and repack and repack[0] is False:
-            for c in ast.walk(r):
-                if isinstance(c, ast.Call) and callee_name(c) == 'unpack':
-                    fmts.add(cx.ce.try_ev(c.args[0], tr.mod, b))
+        calls = [c for c in (ast.walk(r) if r is not None else []) if isinstance(c, ast.Call) and callee_name(c) == 'unpack']
+        calls += [ev._sub for ev in p.ev if ev.kind == 'call' and callee_name(ev.node) == 'unpack' and isinstance(getattr(ev, '_sub', None), ast.Call)]
+        for c in calls:
+            if c.args:
+                fmts.add(word_format(c.args[0], tr, b, True))
     ffmts = set()
     for c in ast.walk(fr.node):
-        if isinstance(c, ast.Call) and callee_name(c) == 'pack':
-            ffmts.add(cx.ce.try_ev(c.args[0], fr.mod, d))
+        if isinstance(c, ast.Call) and callee_name(c) == 'pack' and c.args:
+            starred = any(isinstance(a, ast.Starred) for a in c.args[1:])
+            ffmts.add(word_format(c.args[0], fr, d, not starred))
     ck.ob('R3', tr.qn, "to_registers (no repack) and fromRegisters use the same 16-bit format '!H'", fmts == {'!H'} and ffmts == {'!H'},
           detail='register-formats %s/%s' % (sorted(map(str, fmts)), sorted(map(str, ffmts))), loc=cx.floc(tr),
           message='to_registers uses %s, fromRegisters uses %s' % (sorted(map(str, fmts)), sorted(map(str, ffmts))))
-    okb = False
-    for p in cx.enum(bd, b, max_depth=0):
-        annotate(p)
-        r = ret_expr(p)
-        if isinstance(r, ast.ListComp) and len(r.generators) == 1:
-            g = r.generators[0]
-            rng = g.iter
-            el = r.elt
-            if isinstance(rng, ast.Call) and callee_name(rng) == 'range' and len(rng.args) == 3 and cx.ce.try_ev(rng.args[2], bd.mod, b) == 2 \
-                    and cx.ce.try_ev(rng.args[0], bd.mod, b) == 0 and isinstance(el, ast.Subscript) and isinstance(el.slice, ast.Slice):
-                try:
-                    w = (nzb.norm(el.slice.upper) - nzb.norm(el.slice.lower)).const_value()
-                except (NotInt, TypeError):
-                    w = None
-                src = U(el.value)
-                pad = "b'\\x00' * (len(self.to_string()) % 2)" in src or "% 2" in src
-                okb = w == 2 and pad
-    ck.ob('R3', bd.qn, 'build() pads odd lengths with one zero byte and cuts 2-byte chunks from offset 0', okb, detail='build-shape', loc=cx.floc(bd))
+    # build(): chunk i is padded[2i : 2i+2] for i = 0 .. ceil(len/2)-1, padded = to_string() + one zero byte when the length is odd.
+    # Two spellings of the loop are summarised alike: a comprehension over a range, or a for loop that appends; the slice bounds
+    # are normalised as affine functions of the loop variable and the iteration count is folded for the lengths 0..40.
+    okb, why_b = False, 'no chunk loop recognised'
+    cands = []
+    for node in ast.walk(bd.node):
+        if isinstance(node, ast.ListComp) and len(node.generators) == 1 and not node.generators[0].ifs:
+            cands.append((node.generators[0].target, node.generators[0].iter, node.elt, node))
+        elif isinstance(node, ast.For) and not node.orelse:
+            for c in ast.walk(node):
+                if isinstance(c, ast.Call) and callee_name(c) == 'append' and c.args:
+                    cands.append((node.target, node.iter, c.args[0], node))
+    for tgt, rng, el, host in cands:
+        if not (isinstance(tgt, ast.Name) and isinstance(rng, ast.Call) and callee_name(rng) == 'range' and 1 <= len(rng.args) <= 3):
+            continue
+        # straight-line locals of build() (before and inside the loop), substituted
+        env_ = {}
+        from ..sym import substitute
+        for st_ in ast.walk(bd.node):
+            if isinstance(st_, ast.Assign) and len(st_.targets) == 1 and isinstance(st_.targets[0], ast.Name) and st_.targets[0].id != tgt.id:
+                env_[st_.targets[0].id] = substitute(st_.value, dict(env_))
+            elif isinstance(st_, ast.AugAssign) and isinstance(st_.target, ast.Name) and isinstance(st_.op, ast.Add) and st_.target.id in env_:
+                env_[st_.target.id] = ast.BinOp(left=env_[st_.target.id], op=ast.Add(), right=substitute(st_.value, dict(env_)))
+        el_s = substitute(el, env_)
+        if not (isinstance(el_s, ast.Subscript) and isinstance(el_s.slice, ast.Slice) and el_s.slice.lower is not None and el_s.slice.upper is not None):
+            continue
+        args = [substitute(a, env_) for a in rng.args]
+        start, stop, step = (ast.Constant(0), args[0], ast.Constant(1)) if len(args) == 1 else ((args[0], args[1], ast.Constant(1)) if len(args) == 2 else args)
+        src = U(el_s.value).replace(' ', '')
+        pad = src in ("self.to_string()+b'\\x00'*(len(self.to_string())%2)", "self.to_string()+bytes(len(self.to_string())%2)")
+        good = pad
+        if not pad:
+            why_b = 'the chunks are cut from `%s`, not from to_string() + one zero byte when its length is odd' % U(el_s.value)[:60]
+        LEN = 'len(self.to_string())'
+        for L in range(0, 41):
+            def fold(e, v=None):
+                txt = U(e).replace(LEN, str(L))
+                e2 = ast.parse(txt, mode='eval').body
+                return cx.ce.try_ev(e2, bd.mod, b, env=({tgt.id: v} if v is not None else {}), default=None)
+            a0, a1, a2 = fold(start), fold(stop), fold(step)
+            if not all(isinstance(x, int) for x in (a0, a1, a2)) or a2 <= 0:
+                good, why_b = False, 'loop range not decidable'
+                break
+            its = list(range(a0, a1, a2))
+            want = [(2 * i, 2 * i + 2) for i in range((L + 1) // 2)]
+            got = [(fold(el_s.slice.lower, v), fold(el_s.slice.upper, v)) for v in its]
+            if got != want:
+                good, why_b = False, 'for a %d-byte payload the chunks are %s, expected %s' % (L, got[:4], want[:4])
+                break
+        if good:
+            okb = True
+            break
+    ck.ob('R3', bd.qn, 'build() pads odd lengths with one zero byte and cuts 2-byte chunks from offset 0', okb, detail='build-shape', loc=cx.floc(bd),
+          message='BinaryPayloadBuilder.build: %s' % why_b)
     # the image is a function of what has been added, nothing else: to_string() joins the current payload on every path
     # and reset() empties it (a cached or stale image survives a reset / refill of the same builder)
     ts = cx.method(b, 'to_string')
